@@ -391,7 +391,7 @@ func (P) Monitor(c *hx.CaseRun) []hx.Failure {
 
 func (P) Generate(g *hx.Gen) {
 	pruneCases(g)
-	chains := g.Pick(6, 60)
+	chains := g.Pick(14, 60)
 	for k := 0; k < chains; k++ {
 		trie := k % 2
 		ops := []string{hx.CaseOp(), fmt.Sprintf("chain trie=%d accts=3 wallets=2 seed=%d code=1", trie, 1+g.Rng.Intn(1000))}
